@@ -110,6 +110,11 @@ func types() []ctype {
 			apply: func(i any, o Op) string {
 				s := i.(*stack.Stack[int])
 				switch o.N {
+				case "Drain":
+					for k := 0; k < o.A; k++ {
+						s.Pop()
+					}
+					return ""
 				case "Fill":
 					for v := 10; v < 10+o.A; v++ {
 						s.Push(v)
@@ -162,6 +167,11 @@ func types() []ctype {
 			apply: func(i any, o Op) string {
 				q := i.(*queue.Queue[int])
 				switch o.N {
+				case "Drain":
+					for k := 0; k < o.A; k++ {
+						q.Dequeue()
+					}
+					return ""
 				case "Fill":
 					for v := 10; v < 10+o.A; v++ {
 						q.Enqueue(v)
@@ -229,6 +239,11 @@ func types() []ctype {
 			apply: func(i any, o Op) string {
 				h := i.(*heap.Heap[int])
 				switch o.N {
+				case "Drain":
+					for k := 0; k < o.A; k++ {
+						h.Pop()
+					}
+					return ""
 				case "Fill":
 					for v := 10; v < 10+o.A; v++ {
 						h.Push(v)
@@ -527,7 +542,10 @@ func deepTypes() []ctype {
 	deep.inits = [][]Op{{{N: "Upsert", A: 2, B: 1}, {N: "Upsert", A: 1, B: 1}, {N: "Upsert", A: 3, B: 1}},
 		{{N: "Upsert", A: 4, B: 1}, {N: "Upsert", A: 2, B: 1}, {N: "Upsert", A: 6, B: 1}, {N: "Upsert", A: 1, B: 1}, {N: "Upsert", A: 3, B: 1}, {N: "Upsert", A: 5, B: 1}, {N: "Upsert", A: 7, B: 1}}}
 	deep.ops = func([]int) []Op {
-		o := []Op{{N: "Size"}}
+		// Traverse takes part as an operation: its whole visit sequence is one result that some
+		// sequential order has to explain (a traversal that lets writers in half-way may skip a
+		// key nobody touched)
+		o := []Op{{N: "Size"}, {N: "Traverse"}}
 		for _, k := range []int{2, 3, 4} {
 			o = append(o, Op{N: "Upsert", A: k, B: 9}, Op{N: "Get", A: k}, Op{N: "Delete", A: k})
 		}
@@ -838,6 +856,222 @@ func panicsSequentially(t *ctype, c Case) bool {
 	}
 	vsync.SetMode(vsync.ModeOff)
 	return rec(nil)
+}
+
+
+// ---------------------------------------------------------------- conservation under long runs
+//
+// The linearizability tables above keep programs tiny (the search is exponential), so they never
+// leave the small-size regime of a container. This monitor is the complement: long concurrent
+// runs with UNIQUE values (worker id * 1e6 + counter) that grow a container to thousands of
+// elements and drain it again, several times, under the same seeded delays at lock boundaries;
+// the oracle is offline conservation - every value handed out was put in, no value is handed out
+// twice, and what was put in equals what came out plus what a final sequential drain finds
+// ("no element is lost, duplicated or double-counted"). Growth, shrink and rebuild paths of the
+// backing storage are crossed many times per run, whatever their thresholds are.
+
+type ConsCase struct {
+	Type    string `json:"type"`
+	Workers int    `json:"workers"`
+	Peak    int    `json:"peak"`
+	Rounds  int    `json:"rounds"`
+	Seed    uint64 `json:"seed"`
+}
+
+type bag interface {
+	put(v int)
+	take() (int, bool) // value, got one
+	size() int
+}
+
+type stackBag struct{ s *stack.Stack[int] }
+
+func (b stackBag) put(v int)         { b.s.Push(v) }
+func (b stackBag) take() (int, bool) { v := b.s.Pop(); return v, v != 0 }
+func (b stackBag) size() int         { return b.s.Size() }
+
+// (LStack is not used as a bag: its Pop hands back the element below the one it removes - the
+// recorded finding of C06 - so what it returns says nothing about what left the stack.)
+
+type queueBag struct{ q *queue.Queue[int] }
+
+func (b queueBag) put(v int)         { b.q.Enqueue(v) }
+func (b queueBag) take() (int, bool) { v, err := b.q.Dequeue(); return v, err == nil }
+func (b queueBag) size() int         { return b.q.Size() }
+
+type lqueueBag struct{ q *queue.LQueue[int] }
+
+func (b lqueueBag) put(v int)         { b.q.Enqueue(v) }
+func (b lqueueBag) take() (int, bool) { v := b.q.Dequeue(); return v, v != 0 }
+func (b lqueueBag) size() int         { return b.q.Size() }
+
+type heapBag struct{ h *heap.Heap[int] }
+
+func (b heapBag) put(v int)         { b.h.Push(v) }
+func (b heapBag) take() (int, bool) { v := b.h.Pop(); return v, v != 0 }
+func (b heapBag) size() int         { return b.h.Size() }
+
+func mkBag(typ string) bag {
+	switch typ {
+	case "Stack":
+		return stackBag{stack.New[int]()}
+	case "Queue":
+		return queueBag{queue.New[int]()}
+	case "LQueue":
+		q := queue.NewLinked(9)
+		q.Dequeue()
+		return lqueueBag{q}
+	case "Heap":
+		return heapBag{heap.NewHeap(func(a, b int) bool { return a < b })}
+	}
+	panic("bad bag type " + typ)
+}
+
+func runCons(w *core.Worker, c ConsCase) {
+	vsync.SetMode(vsync.ModeTracked)
+	vsync.BeginScenario(c.Seed, true)
+	defer vsync.SetMode(vsync.ModeOff)
+	b := mkBag(c.Type)
+	put := make([][]int, c.Workers)
+	got := make([][]int, c.Workers)
+	dead := make([]string, c.Workers)
+	var wg sync.WaitGroup
+	for wi := 0; wi < c.Workers; wi++ {
+		wg.Add(1)
+		go func(wi int) {
+			defer wg.Done()
+			vsync.Register(wi)
+			defer vsync.Done()
+			defer func() {
+				if p := recover(); p != nil {
+					if p == vsync.Deadlock {
+						dead[wi] = outDeadlock
+					} else {
+						dead[wi] = outPanic + ":" + core.TrimPanic(p)
+					}
+				}
+			}()
+			rng := core.NewRand(c.Seed ^ uint64(wi+1)*0x9e3779b97f4a7c15)
+			next := wi*1_000_000 + 1
+			share := c.Peak / c.Workers
+			for round := 0; round < c.Rounds; round++ {
+				// grow: share puts per worker, a take now and then
+				for n := 0; n < share; {
+					if rng.Chance(1, 8) {
+						if v, ok := b.take(); ok {
+							got[wi] = append(got[wi], v)
+						}
+						continue
+					}
+					b.put(next)
+					put[wi] = append(put[wi], next)
+					next++
+					n++
+				}
+				// drain: share*1.2 operations, mostly takes, a put now and then (remove-then-insert
+				// pairs while others are mid-call)
+				for n := 0; n < share+share/5; n++ {
+					if rng.Chance(1, 7) {
+						b.put(next)
+						put[wi] = append(put[wi], next)
+						next++
+						continue
+					}
+					if v, ok := b.take(); ok {
+						got[wi] = append(got[wi], v)
+					}
+				}
+			}
+		}(wi)
+	}
+	wg.Wait()
+	for wi, d := range dead {
+		if d != "" {
+			w.Violation(sigPrefix(w)+".conservation-"+strings.ToLower(strings.SplitN(d, ":", 2)[0])+":"+c.Type, fmt.Sprintf("%s: worker %d ended with %s during the long concurrent run", c.Type, wi, d))
+			return
+		}
+	}
+	// final sequential drain
+	var rest []int
+	func() {
+		vsync.Register(100)
+		defer vsync.Done()
+		for n := b.size() + 8; n > 0; n-- {
+			if v, ok := b.take(); ok {
+				rest = append(rest, v)
+			}
+		}
+	}()
+	vsync.EndScenario()
+	in := map[int]bool{}
+	total := 0
+	for _, p := range put {
+		for _, v := range p {
+			in[v] = true
+			total++
+		}
+	}
+	out := map[int]int{}
+	nOut := 0
+	for _, g := range append(got, rest) {
+		for _, v := range g {
+			out[v]++
+			nOut++
+			if !in[v] {
+				w.Violation(sigPrefix(w)+".conservation-foreign-value:"+c.Type, fmt.Sprintf("%s: value %d was handed out but never put in (%d put, %d handed out)", c.Type, v, total, nOut))
+				return
+			}
+			if out[v] > 1 {
+				w.Violation(sigPrefix(w)+".conservation-duplicated:"+c.Type, fmt.Sprintf("%s: value %d was handed out twice (%d workers, peak %d)", c.Type, v, c.Workers, c.Peak))
+				return
+			}
+		}
+	}
+	if nOut != total {
+		lost := 0
+		example := 0
+		for v := range in {
+			if out[v] == 0 {
+				lost++
+				example = v
+			}
+		}
+		w.Violation(sigPrefix(w)+".conservation-lost:"+c.Type, fmt.Sprintf("%s: %d values were put in, %d came out (concurrent takes + final sequential drain): %d lost, e.g. %d (%d workers, peak %d, %d rounds)", c.Type, total, nOut, lost, example, c.Workers, c.Peak, c.Rounds))
+		return
+	}
+	if n := b.size(); n != 0 {
+		w.Violation(sigPrefix(w)+".conservation-size:"+c.Type, fmt.Sprintf("%s: everything came out but Size()=%d", c.Type, n))
+		return
+	}
+	w.Count("conservation_values_put", int64(total))
+	w.NonTrivial(core.HashString(core.JSON(c)))
+	if w.WantSample() {
+		w.Sample(map[string]any{"case": c, "values_put": total, "taken_concurrently": nOut - len(rest), "found_by_final_drain": len(rest)})
+	}
+}
+
+// TestConservation is registered as a second variant of C02.
+func TestConservation(t *testing.T) {
+	r := core.Start(t, "C02")
+	defer r.Finish()
+	r.Rule("conservation: long concurrent runs (2-6 workers, unique values, containers grown to 600-6000 elements and drained again 3-8 times, puts and takes interleaved) on Stack, Queue, LQueue and Heap under the tracked sync shim; offline check: nothing handed out that was not put in, nothing handed out twice, put = taken + found by a final sequential drain, Size 0 at the end; non-trivial = every case; distinct by hash of the case")
+	si, sn := r.Shard()
+	core.Monitor(r, "conservation", 4, func(emit func(ConsCase)) {
+		rng := r.Rand("c02-conservation")
+		i := 0
+		for rep := 0; rep < r.Pick(16, 160); rep++ {
+			for _, typ := range []string{"Stack", "Queue", "LQueue", "Heap"} {
+				c := ConsCase{Type: typ, Workers: rng.Range(2, 6), Peak: []int{600, 1500, 3000, 6000}[rng.Intn(4)], Rounds: rng.Range(3, 8), Seed: rng.Uint64()}
+				if typ == "LQueue" && c.Peak > 1500 {
+					c.Peak = 1500 // the linked queue appends in linear time
+				}
+				i++
+				if i%sn == si {
+					emit(c)
+				}
+			}
+		}
+	}, runCons)
 }
 
 func TestProp(t *testing.T) {
